@@ -211,7 +211,8 @@ def _attr_read(prog, fn, e, depth=0):
     if nm in ('FindAttr', 'find_or_default'):
         a = c.args
         if len(a) >= 2 and lit(a[-2]) is not None:
-            return lit(a[-2]), a[-1], nm
+            elem = c.obj if nm == 'FindAttr' else (a[0] if len(a) >= 3 else None)
+            return lit(a[-2]), a[-1], nm, elem
         return None
     if depth < 2 and c.callee_qp:
         for h in prog.fns(c.callee_qp):
@@ -221,14 +222,18 @@ def _attr_read(prog, fn, e, depth=0):
             inner = _attr_read(prog, h, rr[0].children[0], depth + 1)
             if inner is None:
                 continue
-            name, d, how = inner
+            name, d, how, elem = inner
+            # the element the helper reads is one of its parameters: the caller's argument bound to it
+            if elem is not None:
+                es = elem.strip(casts=True)
+                elem = c.args[h.param_ids.index(es.declid)] if es.k == 'DeclRefExpr' and es.declid in h.param_ids and h.param_ids.index(es.declid) < len(c.args) else None
             ds = d.strip(casts=True)
             if ds.k == 'DeclRefExpr' and ds.declid in h.param_ids:
                 i = h.param_ids.index(ds.declid)
                 if i < len(c.args):
-                    return name, c.args[i], how + ' via ' + h.q
+                    return name, c.args[i], how + ' via ' + h.q, elem
                 return None
-            return name, d, how + ' via ' + h.q
+            return name, d, how + ' via ' + h.q, elem
     return None
 
 
@@ -307,7 +312,8 @@ def count_rules(ctx, prog):
             dflt = g.tu.decls[g.param_ids[-1]].get('defv')
             if dflt is None:
                 dn = g.raw.get('defaults', {})
-            rd = _attr_read(prog, f, a)
+            from ..memo import _expand as _exp
+            rd = _attr_read(prog, f, _exp(f, a))          # the read may have been hoisted into a named const local
             n += 1
             ctx.saw(f)
             if a.strip().k == 'CXXDefaultArgExpr':
@@ -315,7 +321,14 @@ def count_rules(ctx, prog):
                 continue
             if rd is None:
                 raise AnalysisBroken('%s: count argument `%s` of %s is not a recognised attribute read' % (f.q, a.text(), cq))
-            name, d, how = rd
+            name, d, how, elem = rd
+            # the count belongs to the element the object's other settings come from: for a file logger, the element get_logname() reads the file name from
+            lognames = [x for x in f.calls() if x.callee is not None and x.callee.get('n') == 'get_logname' and x.args]
+            if lognames and elem is not None and 'Logger' in cq:
+                ctx.check(q.same_expr(elem, lognames[0].args[0]), 'R29.5', f.q + '#' + cq.split('::')[-1] + '.count-from-same-element', c.loc,
+                          'the count is read from the element the log file name is read from (`%s`)' % lognames[0].args[0].text(),
+                          'the rotation count is read from `%s` while the log file name comes from `%s`: the <log rotation="N"> attribute is never consulted, every '
+                          'logger rotates with the default count' % (elem.text(), lognames[0].args[0].text()))
             dv = d.strip(casts=True).value
             if dv is None:
                 dv = q.eval_int(d, {})
